@@ -248,6 +248,13 @@ fn replay_parse(rest: &[String]) -> ! {
     let exp: i32 = rest[1].parse().expect("exp");
     let int = rle_arg(&rest[2]);
     let frac = rle_arg(&rest[3]);
+    if fmt == "both" {
+        // crash replays: just make the two calls (a crash kills this process, which is the observation)
+        let a = real::parse::<f32>(&int, &frac, exp);
+        let b = real::parse::<f64>(&int, &frac, exp);
+        println!("REPLAY cfg={} both formats survived: {:x?} {:x?}", real::cfg_name(), a, b);
+        std::process::exit(0);
+    }
     let v = DecN::from_parts(&int, &frac, exp);
     let (got, f) = if fmt == "f32" { (real::parse::<f32>(&int, &frac, exp), F32) } else { (real::parse::<f64>(&int, &frac, exp), F64) };
     let want = expected(&v, f);
@@ -314,7 +321,11 @@ fn main() {
     // collect distinct non-trivial cases from all worker threads (workers flushed at job ends;
     // whatever is left in thread-locals of finished threads was flushed by flush_distinct_final
     // in the worker wrapper - see run_jobs job_done hook)
-    let distinct = value::distinct_count();
+    // distinct non-trivial cases: measured with a hash set where families may overlap; for the
+    // API-level enumerations every case is generated once (deduplicated operand / exponent lists,
+    // odometer enumeration of histories and strings), so the count of non-trivial cases is the distinct count
+    let by_construction = matches!(a.prop.as_str(), "c08" | "c11" | "c12" | "c13" | "c14" | "c16" | "c17" | "c18");
+    let distinct = if by_construction { st.nontrivial } else { value::distinct_count() };
     let extra = format!(
         "\"cfg\":{},\"distinct_nontrivial\":{},{}",
         run::jstr(real::cfg_name()),
